@@ -385,7 +385,9 @@ func runWmWaiters(c *Ctx, r *RuleRun) {
 				good := false
 				if cl, ok := x.Value.(*ssa.Call); ok {
 					if bi, ok := cl.Call.Value.(*ssa.Builtin); ok && bi.Name() == "append" {
-						if lk, ok := cl.Call.Args[0].(*ssa.Lookup); ok && lk.X == x.Map && sameSource(lk.Index, x.Key) {
+						// (the table may be a field of a state struct: two loads of the same field are the same map)
+						onf := nfOpts{p: p, depth: 6}
+						if lk, ok := cl.Call.Args[0].(*ssa.Lookup); ok && (lk.X == x.Map || onf.nf(lk.X) == onf.nf(x.Map)) && sameSource(lk.Index, x.Key) {
 							good = true
 						}
 					}
@@ -525,6 +527,74 @@ func runRecoverLevels(c *Ctx, r *RuleRun) {
 				return isBi && bi.Name() == "len" && isLoadOfField(lc.Call.Args[0], levels) && stripValue(cm.Y) == idx
 			})
 			if !ok2 {
+				// a counted loop: for n := len(levels); n <= level; n++ { levels = append(levels, x) } - n stays equal to
+				// len(levels) because every iteration appends exactly one list, so the exit fact n > level says the same
+				ok2 = hasFact(ia, func(cm Cmp) bool {
+					if cm.Y == nil || cm.Op != ">" || stripValue(cm.Y) != idx {
+						return false
+					}
+					ph, isPhi := stripValue(cm.X).(*ssa.Phi)
+					if !isPhi || len(ph.Edges) != 2 {
+						return false
+					}
+					initOK, stepOK := false, false
+					var backPred *ssa.BasicBlock
+					for i, e := range ph.Edges {
+						pred := ph.Block().Preds[i]
+						if ph.Block().Dominates(pred) {
+							stepOK = isPlus(e, ph, 1)
+							backPred = pred
+							continue
+						}
+						if lc, isCall := stripValue(e).(*ssa.Call); isCall {
+							if bi, isBi := lc.Call.Value.(*ssa.Builtin); isBi && bi.Name() == "len" && isLoadOfField(lc.Call.Args[0], levels) {
+								initOK = true
+							}
+						}
+					}
+					if !initOK || !stepOK || backPred == nil {
+						return false
+					}
+					// exactly one append of one element on the way round, and no other store to levels in the loop
+					nApp := 0
+					for _, lp := range naturalLoops(f) {
+						if lp.header != ph.Block() {
+							continue
+						}
+						for b := range lp.body {
+							for _, i2 := range b.Instrs {
+								st, isSt := i2.(*ssa.Store)
+								if !isSt {
+									continue
+								}
+								if fv, _ := fieldOfAddr(st.Addr); fv != levels {
+									continue
+								}
+								cl, isCall := st.Val.(*ssa.Call)
+								one := false
+								if isCall {
+									if bi, isBi := cl.Call.Value.(*ssa.Builtin); isBi && bi.Name() == "append" && len(cl.Call.Args) == 2 && isLoadOfField(cl.Call.Args[0], levels) {
+										if sl, isSl := cl.Call.Args[1].(*ssa.Slice); isSl {
+											if al, isAl := sl.X.(*ssa.Alloc); isAl {
+												if at, isArr := al.Type().Underlying().(*types.Pointer).Elem().Underlying().(*types.Array); isArr && at.Len() == 1 {
+													one = true
+												}
+											}
+										}
+									}
+								}
+								if one && (b == backPred || b.Dominates(backPred)) {
+									nApp++
+								} else {
+									nApp = -100
+								}
+							}
+						}
+					}
+					return nApp == 1
+				})
+			}
+			if !ok2 {
 				// a helper called with the level before this point that returns only with len(levels) > its parameter
 				eachInstr(f, func(i2 ssa.Instruction) {
 					cl, isCall := i2.(*ssa.Call)
@@ -648,8 +718,41 @@ func runRecoverEndlog(c *Ctx, r *RuleRun) {
 		bt, ok := al.Type().Underlying().(*types.Pointer).Elem().Underlying().(*types.Basic)
 		return ok && bt.Info()&types.IsInteger != 0
 	}
-	classify := func(cond ssa.Value, truth bool) (string, bool) {
+	var classify func(cond ssa.Value, truth bool) (string, bool)
+	// a flag tested by the loop (`for !torn && …`) that becomes true only where a record was classified as torn
+	flagFromTorn := func(ph *ssa.Phi) (string, bool) {
+		why, any := "", false
+		for i, e := range ph.Edges {
+			if e == ssa.Value(ph) || isConstBool(e, false) {
+				continue
+			}
+			if !isConstBool(e, true) {
+				return "", false
+			}
+			pred := ph.Block().Preds[i]
+			found := false
+			for _, ce := range dominatingConds(pred.Instrs[len(pred.Instrs)-1]) {
+				if _, isPhi := ce.If.Cond.(*ssa.Phi); isPhi {
+					continue
+				}
+				if w, ok := classify(ce.If.Cond, ce.Truth); ok {
+					found, why = true, w
+				}
+			}
+			if !found {
+				return "", false
+			}
+			any = true
+		}
+		return why, any
+	}
+	classify = func(cond ssa.Value, truth bool) (string, bool) {
 		cm := canonCond(cond, truth)
+		if ph, isPhi := cm.X.(*ssa.Phi); isPhi && cm.Y == nil && cm.Op == "true" {
+			if w, ok := flagFromTorn(ph); ok {
+				return w, true
+			}
+		}
 		if cm.Y == nil {
 			// boolean: a classifier call
 			if cl, ok := cm.X.(*ssa.Call); ok && cm.Op == "true" {
@@ -806,6 +909,45 @@ func runRecoverEndlog(c *Ctx, r *RuleRun) {
 				t = t.Succs[0]
 			}
 			if inL[q] && inL[t] {
+				// the way back to the loop test sets a flag on which that test leaves the loop (`torn = true` with
+				// `for !torn && …`): follow the straight line to the next branch and thread the constant through it
+				leaves := false
+				{
+					prev, cur := b, q
+					for i := 0; i < 8 && len(cur.Succs) == 1; i++ {
+						prev, cur = cur, cur.Succs[0]
+					}
+					if hif, isIf := cur.Instrs[len(cur.Instrs)-1].(*ssa.If); isIf && len(cur.Succs) == 2 {
+						cond, neg := hif.Cond, false
+						for {
+							u, isNot := cond.(*ssa.UnOp)
+							if !isNot || u.Op != token.NOT {
+								break
+							}
+							cond, neg = u.X, !neg
+						}
+						if ph, isPhi := cond.(*ssa.Phi); isPhi && ph.Block() == cur {
+							for k, pb := range cur.Preds {
+								if pb != prev || k >= len(ph.Edges) {
+									continue
+								}
+								if c, isC := ph.Edges[k].(*ssa.Const); isC && c.Value != nil {
+									val := isConstBool(c, true) != neg
+									succ := cur.Succs[1]
+									if val {
+										succ = cur.Succs[0]
+									}
+									if !inL[succ] {
+										leaves = true
+									}
+								}
+							}
+						}
+					}
+				}
+				if leaves {
+					continue
+				}
 				// a classifier call that is only the first half of a chain (err != nil && isTorn) keeps going: only
 				// flag when the edge re-enters the loop header without leaving
 				if reaches(t, b) {
